@@ -201,7 +201,7 @@ def render_layouts():
         rows = [f"({lean_path(p)}, {o}, {w}, {lean_str(t)})" for p, o, w, t in acc if live(p)]
         L.append(f"def {name}Fields : List (List String × Nat × Nat × String) × Nat :=\n  ([" + ",\n    ".join(rows) + f"], {end})\n")
     L += ["end Alos2.Spec", ""]
-    with open(os.path.join(VERIF, "lean", "Alos2", "Spec", "Layouts.lean"), "w", encoding="utf-8") as f:
+    with open(os.path.join(sys.argv[1] if len(sys.argv) > 1 else os.path.join(VERIF, "lean"), "Alos2", "Spec", "Layouts.lean"), "w", encoding="utf-8") as f:
         f.write("\n".join(L))
 
 
@@ -283,8 +283,34 @@ def lineTree (vars : List (String × List String × KVs Sym)) (attrs : List (Str
       []
       (attrs.map (fun (name, p) => (name, .leaf (.path ("[0]" :: p)))))
 """)
+    L.append("""/-- `fix_attitude_time`: every attitude timedelta becomes a datetime by adding 1 January of the year of the first orbit point -/
+def fixSym (first : Sym) : Sym → Sym
+  | .app2 "attitude_time" a b => .app2 "fix_attitude_time" first (.app2 "attitude_time" a b)
+  | s => s
+
+/-- the first orbit point (paths from the leader record root) -/
+def firstPoint : Sym :=
+  .app2 "composite_datetime" (.path ["platform_position", "datetime_of_first_point", "date"])
+    (.path ["platform_position", "datetime_of_first_point", "seconds_of_day"])
+
+/-- the documented `/metadata` group of a leader file (paths from the leader record root): one group per record kept,
+    the map-projection group exactly when the leader holds a map-projection record (`hasMap`; its tree depends on the class
+    `d` of the designator), `na` attitude points, `nc` data-quality channels; `none` when a record is not decodable
+    (designator without '-') -/
+def metadata (hasMap : Bool) (d : Desig) (na nc : Nat) : Option (Grp Sym) :=
+  let mp : Option (List (String × Grp Sym)) :=
+    if hasMap then (mapProjection d).map (fun g => [("map_projection", g.map (preS ["map_projection", "[0]"]))]) else some []
+  mp.map (fun mpg => Grp.mk []
+    ([("attitude", ((attitude na).map (preS ["attitude"])).map (fixSym firstPoint)),
+      ("data_quality_summary", (dataQualitySummary nc).map (preS ["data_quality_summary"])),
+      ("dataset_summary", datasetSummary.map (preS ["dataset_summary"]))] ++ mpg ++
+     [("platform_position", platformPosition.map (preS ["platform_position"])),
+      ("radiometric_data", radiometricData.map (preS ["radiometric_data"])),
+      ("transformations", transformations.map (preS ["facility_related_data_5"]))])
+    [])
+""")
     L += ["end Alos2.Spec", ""]
-    out = os.path.join(VERIF, "lean", "Alos2", "Spec", "Trees.lean")
+    out = os.path.join(sys.argv[1] if len(sys.argv) > 1 else os.path.join(VERIF, "lean"), "Alos2", "Spec", "Trees.lean")
     os.makedirs(os.path.dirname(out), exist_ok=True)
     with open(out, "w", encoding="utf-8") as f:
         f.write("\n".join(L))
